@@ -29,8 +29,8 @@ def _table(tier):
     (tracing + XLA compilation of the real compress / decompress; nothing is shared between configurations because k / start / index maps
     are static fields), so the complete table up to T = 16 (3264 configurations, ~9 CPU-minutes) does not fit into a 120 s quick budget."""
     if tier == "quick":
-        return [(T, p) for T in range(1, 4) for p in PIPELINES] + [(T, p) for T in range(4, 7) for p in ([], ["everyk"], ["dtype"])]
-    return [(T, p) for T in range(1, 41) for p in PIPELINES]
+        return [(T, p) for T in range(1, 4) for p in PIPELINES] + [(T, p) for T in range(4, 7) for p in ([], ["everyk"], ["dtype"])] + [(T, ["everyk", "everyk"]) for T in (7, 10, 14)]
+    return [(T, p) for T in range(1, 41) for p in PIPELINES] + [(T, ["everyk", "everyk"]) for T in range(4, 33)]
 
 
 RUNS = {"quick": len(_table("quick")), "thorough": len(_table("thorough"))}
@@ -77,7 +77,16 @@ def generate(rng, tier, index):
     shapes = {}
     for i in range(n_keys):  # interface records are (3, a, b) arrays in the solver
         shapes[f"pml{i}_{'EH'[i % 2]}"] = [3] + [int(rng.integers(1, 4)) for _ in range(2)]
+    stacked = None
+    if pipeline == ["everyk", "everyk"]:
+        stacked = []
+        for _ in range(10):
+            k1 = int(rng.integers(1, 5))
+            s1 = int(rng.integers(0, max(1, T // 3)))
+            n1 = len(saved_steps(T, k1, s1))
+            stacked.append([k1, s1, int(rng.integers(1, 5)), int(rng.integers(0, max(1, n1 // 2)))])
     return {
+        "stacked": stacked,
         "T": T,
         "pipeline": pipeline,
         "k_max": K_MAX,
@@ -178,7 +187,93 @@ def _history(seed, T, shapes, dtype):
     return out
 
 
+def _exec_stacked(spec):
+    """Two stacked save-every-k filters (the second thins the first one's slots).  The composite of two linear interpolations in
+    different index spaces is not pinned down by the statement, so only its unambiguous part is judged: a step that survives
+    BOTH filters is returned exactly, the last step always survives, every read at or after the first surviving step is finite
+    and does not depend on the read order; a second run on the same recorder state must not see the first run's records."""
+    import hashlib
+
+    import fdtdx
+    import jax
+    import jax.numpy as jnp
+
+    T = int(spec["T"])
+    in_dt = _np_dtype(spec["in_dtype"])
+    shapes = spec["shapes"]
+    key = jax.random.PRNGKey(int(spec["key"]))
+    jdt = {"float32": jnp.float32, "float64": jnp.float64, "complex64": jnp.complex64, "complex128": jnp.complex128}
+    hists = [_history(spec["hist_seed"] + i, T, shapes, in_dt) for i in range(2)]
+    ro = np.random.Generator(np.random.PCG64(spec["order_seed"]))
+    reads = list(range(T - 1, -1, -1)) + [int(x) for x in ro.permutation(T)]
+    viol, stats, digest = [], {"configs": 0, "writes": 0, "reads": 0, "reads_checked": 0, "probe_pipeline_everyk_everyk": 1}, hashlib.sha256()
+    nontrivial = False
+    for k1, s1, k2, s2 in spec["stacked"]:
+        sv1 = saved_steps(T, k1, s1)
+        if len(sv1) < 1 or s2 >= len(sv1):
+            continue
+        sv2 = saved_steps(len(sv1), k2, s2)
+        both = [sv1[j] for j in sv2]
+        try:
+            with jax.disable_jit():
+                rec = fdtdx.Recorder(modules=[fdtdx.LinearReconstructEveryK(k=int(k1), start_recording_after=int(s1)), fdtdx.LinearReconstructEveryK(k=int(k2), start_recording_after=int(s2))])
+                rec, state = rec.init_state(input_shape_dtypes={nm: jax.ShapeDtypeStruct(tuple(shp), jdt[spec["in_dtype"]]) for nm, shp in shapes.items()}, max_time_steps=T, backend="cpu")
+        except ValueError:
+            stats["rejected_configs"] = stats.get("rejected_configs", 0) + 1
+            continue
+        stats["configs"] += 1
+        def session(st, hist_, reads_, rec=rec):
+            def w(s_, xt):
+                vals_, t_ = xt
+                return rec.compress(vals_, s_, t_, key), None
+
+            st, _ = jax.lax.scan(w, st, (hist_, jnp.arange(T, dtype=jnp.int32)))
+
+            def rd(s_, t_):
+                vals_, s_ = rec.decompress(s_, t_, key)
+                return s_, vals_
+
+            return jax.lax.scan(rd, st, reads_)
+
+        jsession = jax.jit(session)
+        for run, hist in enumerate(hists):
+            state, outs = jsession(state, {nm: jnp.asarray(hist[nm]) for nm in shapes}, jnp.asarray(reads, dtype=jnp.int32))
+            outs = {nm: np.asarray(v) for nm, v in outs.items()}
+            stats["writes"] += T
+            first = {}
+            for ri, t in enumerate(reads):
+                vals = {nm: outs[nm][ri] for nm in shapes}
+                stats["reads"] += 1
+                if t < both[0]:
+                    continue
+                stats["reads_checked"] += 1
+                for nm in sorted(shapes):
+                    got = np.asarray(vals[nm])
+                    digest.update(np.ascontiguousarray(got).tobytes())
+                    info = {"monitor": None, "T": T, "pipeline": spec["pipeline"], "in_dtype": spec["in_dtype"], "conv_dtype": None, "k": [k1, k2], "start": [s1, s2], "t": t, "key": nm, "run": run + 1, "saved_by_both": both}
+                    if t in both:
+                        nontrivial = True
+                        if not np.array_equal(got, hist[nm][t]):
+                            viol.append({**info, "monitor": "saved_step_mismatch" if run == 0 else "second_run_saved_step_mismatch", "stale": bool(run == 1 and np.array_equal(got, hists[0][nm][t]))})
+                    elif not np.all(np.isfinite(got)):
+                        viol.append({**info, "monitor": "interpolated_value_not_finite"})
+                    if (nm, t) in first and not np.array_equal(first[(nm, t)], got, equal_nan=True):
+                        viol.append({**info, "monitor": "read_order_dependent"})
+                    first.setdefault((nm, t), got)
+            if viol:
+                break
+        if viol:
+            break
+    seen = set()
+    viol = [v for v in viol if not (v["monitor"] in seen or seen.add(v["monitor"]))]
+    stats["fault_dropped_write"] = stats["configs"]
+    return {"violations": viol, "stats": stats, "residuals": {}, "nontrivial": nontrivial, "signature": specgen.signature("C30", spec["pipeline"], spec["in_dtype"], None, T),
+            "digest": digest.hexdigest()[:16] + f":v{len(viol)}"}
+
+
 def execute(spec):
+    if spec["pipeline"] == ["everyk", "everyk"]:
+        return _exec_stacked(spec)
     import hashlib
 
     import fdtdx
